@@ -218,7 +218,18 @@ def run_gen_gals(c, H, P, tracers, rsd, origin_kind, enable_ranks, Nthread, want
         params['origin'] = o
     exclude_ties(c, hd, pd, tr, tracers, enable_ranks, H, P)
     rebind.NB.reset(8)
-    out = R.gen_gals(hd, pd, {t: dict(tr[t]) for t in tracers}, params, Nthread, enable_ranks, rsd, False, False)
+    tr_in = {t: dict(tr[t]) for t in tracers}
+    par_in = dict(params)
+    out = R.gen_gals(hd, pd, tr_in, par_in, Nthread, enable_ranks, rsd, False, False)
+    # frame condition: the caller's tracer / parameter dictionaries come back as they went in (fits call the generator again and
+    # again with the same dictionaries, changing a few entries in between: anything written into them leaks into the next call)
+    def same_dict(a, b):
+        return list(a) == list(b) and all((a[k] is b[k]) or (not isinstance(a[k], (Sym, real_np.ndarray)) and not isinstance(b[k], (Sym, real_np.ndarray)) and a[k] == b[k]) for k in a)
+    untouched = same_dict(par_in, params) and list(tr_in) == list(tracers) and all(same_dict(tr_in[t], tr[t]) for t in tracers)
+    changed = sorted(f'{t}.{k}' for t in tracers for k in set(tr_in[t]) ^ set(tr[t])) + sorted(f'{t}.{k}' for t in tracers for k in set(tr_in[t]) & set(tr[t])
+                                                                                              if tr_in[t][k] is not tr[t][k] and isinstance(tr[t][k], Sym))
+    c.prove(z3.BoolVal(bool(untouched)), 'gen_gals leaves the caller\'s tracer and parameter dictionaries unchanged (no state carried into the next call)',
+            key='hod:inputs-unmodified', info=dict(changed=changed[:8], tracers=list(tracers)))
     return hd, pd, tr, params, out
 
 
@@ -434,6 +445,16 @@ try:
 except Exception as ex:
     import traceback; traceback.print_exc()
     bad.append(f'gen_gals raised {{type(ex).__name__}}: {{ex}}'); out = None
+# frame condition: the caller's dictionaries come back unchanged
+try:
+    tr_in = {{t: dict(d) for t, d in tr.items()}}; par_in = dict(params)
+    G['gen_gals']({{k: v.copy() for k, v in hd.items()}}, {{k: v.copy() for k, v in pd.items()}}, tr_in, par_in, case['Nthread'], ranks, rsd, False, False)
+    for t in tr:
+        if tr_in[t] != tr[t]:
+            bad.append(f'gen_gals changed the caller\'s {{t}} dictionary: added/changed keys {{sorted(k for k in tr_in[t] if k not in tr[t] or tr_in[t][k] != tr[t][k])}}')
+    if set(par_in) != set(params): bad.append(f'gen_gals changed the caller\'s params dictionary: {{sorted(set(par_in) ^ set(params))}}')
+except Exception as ex:
+    pass
 ORDER = ['LRG', 'ELG', 'QSO']
 def widths_c(i):
     g = lambda k: hd[k][i]
